@@ -3,7 +3,6 @@
 package c05
 
 import (
-	"fmt"
 	"go/ast"
 	"go/token"
 	"go/types"
@@ -12,7 +11,6 @@ import (
 	"rscheck/cfgq"
 	"rscheck/core"
 	"rscheck/driver"
-	"rscheck/pat"
 	"rscheck/rules/c10/flow"
 )
 
@@ -232,1024 +230,4 @@ func defsOf(info *types.Info, root ast.Node, obj types.Object) (rhs []ast.Expr, 
 		return true
 	})
 	return
-}
-
-// ---------------------------------------------------------------------------
-// R1 + R4: waitRdbDump
-
-func (r *rs) header() {
-	c := r.c
-	fn := c.Func(pkgU, "", "waitRdbDump")
-	if fn == nil {
-		return
-	}
-	info := fn.Pkg.TypesInfo
-	_, rd := param(fn, 0)
-	var lit *ast.FuncLit
-	for _, fl := range core.FuncLits(fn.Decl.Body) {
-		if core.Mentions(info, fl, rd) {
-			if lit != nil {
-				c.Undecidedf("R1.header", "waitRdbDump/reader-uses", fl.Pos(), "the stream is used by more than one function literal")
-				return
-			}
-			lit = fl
-		}
-	}
-	if lit == nil || rd == nil {
-		c.Undecidedf("R1.header", "waitRdbDump/reader-uses", fn.Decl.Pos(), "cannot find the goroutine that reads the reply header")
-		return
-	}
-	g := cfgq.OfLit(c.Program, info, lit)
-	// every use of the stream is a 1-byte Read
-	var reads []*ast.CallExpr
-	handled := map[*ast.Ident]bool{}
-	core.InspectAll(fn.Decl.Body, func(m ast.Node) bool {
-		call, ok := m.(*ast.CallExpr)
-		if !ok {
-			return true
-		}
-		if flow.MethodOn(call, "Read", flow.IsObj(info, rd)) && len(call.Args) == 1 {
-			reads = append(reads, call)
-			handled[ast.Unparen(call.Fun).(*ast.SelectorExpr).X.(*ast.Ident)] = true
-			return true
-		}
-		for _, a := range call.Args {
-			if id, ok := ast.Unparen(a).(*ast.Ident); ok && flow.IsObj(info, rd)(id) {
-				handled[id] = true
-				if f := core.CalleeFunc(info, call); f != nil && f.Pkg() != nil && f.Pkg().Path() == "bufio" {
-					c.Failf("R1.header", "waitRdbDump/no-buffered-reader", call.Pos(), "%s wraps the stream in a buffered reader inside the header parser: it reads ahead past '$n\\r\\n' and is then dropped, so the first RDB bytes never reach the RDB consumer", c.Src(call))
-				} else {
-					c.Undecidedf("R1.header", "waitRdbDump/reader-uses", call.Pos(), "the stream is passed to %s", c.Src(call.Fun))
-				}
-			}
-		}
-		return true
-	})
-	core.InspectAll(fn.Decl.Body, func(m ast.Node) bool {
-		if id, ok := m.(*ast.Ident); ok && info.Uses[id] == rd && !handled[id] {
-			c.Undecidedf("R1.header", "waitRdbDump/reader-uses", id.Pos(), "unrecognised use of the stream")
-		}
-		return true
-	})
-	var buf types.Object
-	for _, call := range reads {
-		buf = flow.Obj(info, call.Args[0])
-		if buf == nil {
-			c.Undecidedf("R1.header", "waitRdbDump/one-byte-read", call.Pos(), "Read into %s, not a plain buffer variable", c.Src(call.Args[0]))
-			continue
-		}
-		defs, other := defsOf(info, fn.Decl.Body, buf)
-		if len(defs) == 0 || other > 0 {
-			c.Undecidedf("R1.header", "waitRdbDump/one-byte-read", call.Pos(), "definition of the read buffer not recognised")
-			continue
-		}
-		for _, d := range defs {
-			switch n := bufLen(info, d); {
-			case n == 1:
-				c.Okf("R1.header", "waitRdbDump/one-byte-read", call.Pos(), "the header is read through a buffer of constant length 1")
-			case n > 1:
-				c.Failf("R1.header", "waitRdbDump/one-byte-read", call.Pos(), "the header is read through a %d-byte buffer: one Read can return bytes beyond '$n\\r\\n' (the start of the RDB); they are discarded with the header and the RDB consumer no longer sees exactly the n announced bytes", n)
-			default:
-				c.Undecidedf("R1.header", "waitRdbDump/one-byte-read", call.Pos(), "length of the read buffer %s is not a constant", c.Src(d))
-			}
-		}
-	}
-	if len(reads) != 1 || buf == nil {
-		c.Undecidedf("instances", "R1.header", fn.Decl.Pos(), "expected exactly one Read site on the stream, found %d", len(reads))
-		return
-	}
-	readPt, ok := g.Find(reads[0])
-	if !ok {
-		c.Undecidedf("R1.header", "waitRdbDump/graph", reads[0].Pos(), "the Read is not in the goroutine's control-flow graph")
-		return
-	}
-	isRead := flow.CallOn(g, func(call *ast.CallExpr) bool { return call == reads[0] })
-
-	// ---- R4 framing
-	app, ab := pat.Stmt("_rsp += string(_b)").Find(info, lit.Body, nil)
-	if app == nil || flow.Obj(info, ab["_b"]) != buf {
-		c.Undecidedf("R4.frame", "waitRdbDump/accumulate", lit.Pos(), "cannot find `rsp += string(b)` over the read buffer")
-		return
-	}
-	rsp := flow.Obj(info, ab["_rsp"])
-	isRsp := flow.IsObj(info, rsp)
-	lenRsp := func(e ast.Expr) bool {
-		call, ok := ast.Unparen(e).(*ast.CallExpr)
-		return ok && flow.IsBuiltin(info, call, "len") && isRsp(call.Args[0])
-	}
-	firstByte := func(base func(ast.Expr) bool) func(ast.Expr) bool {
-		return func(e ast.Expr) bool {
-			ix, ok := ast.Unparen(e).(*ast.IndexExpr)
-			return ok && base(ix.X) && isConst(info, ix.Index, 0)
-		}
-	}
-	var ticks, sizes []cfgq.Point
-	var chanObj types.Object
-	for _, p := range g.Points(func(m ast.Node) bool { _, ok := m.(*ast.SendStmt); return ok }) {
-		s := p.Node().(*ast.SendStmt)
-		if chanObj == nil {
-			chanObj = flow.Obj(info, s.Chan)
-		}
-		if isConst(info, s.Value, 0) {
-			ticks = append(ticks, p)
-		} else {
-			sizes = append(sizes, p)
-		}
-	}
-	if len(ticks) != 1 || len(sizes) != 1 || chanObj == nil {
-		c.Undecidedf("R4.frame", "waitRdbDump/sends", lit.Pos(), "expected one keep-alive send of 0 and one size send, found %d and %d", len(ticks), len(sizes))
-		return
-	}
-	tick, size := ticks[0], sizes[0]
-	ok1, w1 := flow.OnlyVia(g, tick, func(f cfgq.Fact) bool { return flow.CmpIs(info, f, lenRsp, token.EQL, 0) })
-	c.Check("R4.frame", "waitRdbDump/tick-before-header-only", tick.Node().Pos(), ok1, "a 0 tick may be sent only while no header byte was stored (len(rsp) == 0): otherwise the LF that ends '$n\\r\\n' is swallowed as a keep-alive and the header never completes", w1...)
-	ok2, w2 := flow.OnlyVia(g, tick, func(f cfgq.Fact) bool { return flow.CmpIs(info, f, firstByte(flow.IsObj(info, buf)), token.EQL, '\n') })
-	c.Check("R4.frame", "waitRdbDump/tick-for-newline-only", tick.Node().Pos(), ok2, "a 0 tick may be sent only for a '\\n' byte: any other byte dropped here is a header byte ('$' or a digit) that is lost", w2...)
-	w3 := g.Path(cfgq.Query{From: tick, After: true, Avoid: isRead, Target: isNode(app)})
-	c.Check("R4.frame", "waitRdbDump/tick-not-stored", tick.Node().Pos(), w3 == nil, "after a keep-alive '\\n' the next byte must be read before anything is appended: a stored '\\n' makes the header start with a byte other than '$'", w3...)
-	w4 := g.Path(cfgq.Query{From: readPt, After: true, Avoid: cfgq.Or(isNode(app), isNode(tick.Node()), isRead), Target: isNode(size.Node())})
-	c.Check("R4.frame", "waitRdbDump/every-byte-stored", reads[0].Pos(), w4 == nil, "every byte read that is not a keep-alive must be appended to the header before the size is announced", w4...)
-	// header complete only at CR LF
-	ok5, w5 := flow.OnlyVia(g, size, func(f cfgq.Fact) bool {
-		b := pat.Expr("strings.HasSuffix(_s, _t)").Match(info, f.Expr, nil)
-		if b == nil || !f.Val || !isRsp(b["_s"].(ast.Expr)) {
-			return false
-		}
-		s, ok := core.StringConst(info, b["_t"].(ast.Expr))
-		return ok && (s == "\r\n" || s == "\n") // the first LF of a well-formed header is its last byte
-	})
-	c.Check("R4.frame", "waitRdbDump/complete-at-crlf", size.Node().Pos(), ok5, "the size may be announced only once the header ends in (CR) LF: stopping earlier leaves header bytes in the stream in front of the RDB, stopping later eats RDB bytes", w5...)
-	// the number
-	atoi, nb := pat.Stmt("_n, _err = strconv.Atoi(_s[_lo : len(_s) - _k])").Find(info, lit.Body, pat.Binds{"_s": ab["_rsp"]})
-	if atoi == nil {
-		c.Undecidedf("R4.frame", "waitRdbDump/digits", lit.Pos(), "cannot find `n, err := strconv.Atoi(rsp[lo : len(rsp)-k])`")
-		return
-	}
-	lo, okl := core.IntConst(info, nb["_lo"].(ast.Expr))
-	k, okk := core.IntConst(info, nb["_k"].(ast.Expr))
-	if !okl || !okk {
-		c.Undecidedf("R4.frame", "waitRdbDump/digits", atoi.Pos(), "slice bounds are not constants")
-	} else {
-		c.Check("R4.frame", "waitRdbDump/digits", atoi.Pos(), lo == 1 && k == 2, fmt.Sprintf("the size is the text between the 1-byte marker and the 2-byte CR LF (found rsp[%d : len-%d]): any other window makes Atoi fail or drop a digit for every well-formed header", lo, k))
-	}
-	nobj := flow.Obj(info, nb["_n"])
-	sv := size.Node().(*ast.SendStmt)
-	sent := unconv(info, flow.Resolve(info, lit.Body, unconv(info, sv.Value)))
-	if be, isBin := sent.(*ast.BinaryExpr); flow.IsObj(info, nobj)(sent) && flow.Assignments(info, lit.Body, nobj) == 1 {
-		c.Okf("R4.frame", "waitRdbDump/size-sent-unchanged", sv.Pos(), "the value announced on the channel is exactly the parsed n")
-	} else if isBin && (be.Op == token.ADD || be.Op == token.SUB) && flow.IsObj(info, nobj)(unconv(info, be.X)) && !isConst(info, be.Y, 0) {
-		c.Failf("R4.frame", "waitRdbDump/size-sent-unchanged", sv.Pos(), "the value announced is %s, not the parsed n: the RDB copy counts down from it and hands over to the command phase too early or too late", c.Src(sv.Value))
-	} else {
-		c.Undecidedf("R4.frame", "waitRdbDump/size-sent-unchanged", sv.Pos(), "announced value %s not recognised", c.Src(sv.Value))
-	}
-	okd, _ := g.Dominated(size, isNode(atoi))
-	c.Check("R4.frame", "waitRdbDump/size-after-parse", sv.Pos(), okd, "the size is announced only after it was parsed")
-	// no read after the announcement (R1)
-	w6 := g.Path(cfgq.Query{From: size, After: true, Target: isRead})
-	c.Check("R1.header", "waitRdbDump/no-read-after-size", sv.Pos(), w6 == nil, "after the size was announced the header goroutine must not read from the stream again: every further byte belongs to the RDB consumer", w6...)
-	// the channel returned is the one written
-	retOK := false
-	core.Inspect(fn.Decl.Body, func(m ast.Node) bool {
-		if ret, ok := m.(*ast.ReturnStmt); ok && len(ret.Results) == 1 && flow.IsObj(info, chanObj)(ret.Results[0]) {
-			retOK = true
-		}
-		return true
-	})
-	c.Check("R4.frame", "waitRdbDump/returns-channel", fn.Decl.Pos(), retOK, "waitRdbDump returns the channel the goroutine announces the size on")
-	// guards for replies outside the premise: recorded, never a violation
-	for _, gd := range []struct {
-		key   string
-		match func(cfgq.Fact) bool
-	}{
-		{"guard-marker", func(f cfgq.Fact) bool { return flow.CmpIs(info, f, firstByte(isRsp), token.EQL, '$') }},
-		{"guard-positive", func(f cfgq.Fact) bool { return nonZero(info, f, flow.IsObj(info, nobj)) }},
-	} {
-		if ok, _ := flow.OnlyVia(g, size, gd.match); ok {
-			c.Okf("R4.frame", "waitRdbDump/"+gd.key, sv.Pos(), "reply guard present")
-		} else {
-			c.Undecidedf("R4.frame", "waitRdbDump/"+gd.key, sv.Pos(), "reply guard not recognised (outside the property's premise, not a violation)")
-		}
-	}
-}
-
-// ---------------------------------------------------------------------------
-// R3: Iocopy and its bounded callers
-
-func (r *rs) iocopy() {
-	c := r.c
-	fn := c.Func(pkgU, "", "Iocopy")
-	if fn == nil {
-		return
-	}
-	info := fn.Pkg.TypesInfo
-	g := cfgq.Of(c.Program, fn)
-	_, rd := param(fn, 0)
-	_, wr := param(fn, 1)
-	pid, p := param(fn, 2)
-	mid, mx := param(fn, 3)
-	isP, isMax := flow.IsObj(info, p), flow.IsObj(info, mx)
-	reads := flow.FindCalls(fn.Decl.Body, func(call *ast.CallExpr) bool { return flow.MethodOn(call, "Read", flow.IsObj(info, rd)) && len(call.Args) == 1 })
-	writes := flow.FindCalls(fn.Decl.Body, func(call *ast.CallExpr) bool { return flow.MethodOn(call, "Write", flow.IsObj(info, wr)) && len(call.Args) == 1 })
-	if len(reads) != 1 || len(writes) != 1 || p == nil || mx == nil {
-		c.Undecidedf("R3.bounded", "Iocopy/shape", fn.Decl.Pos(), "expected one r.Read and one w.Write, found %d and %d", len(reads), len(writes))
-		return
-	}
-	_, _ = pid, mid
-	rp, _ := g.Find(reads[0])
-	wp, _ := g.Find(writes[0])
-	// (a) the read is bounded by max
-	clamp := func(m ast.Node) bool { return reslice(info, m, isP, isMax) }
-	small := flow.Establishes(g, func(f cfgq.Fact) bool {
-		x, y, op, ok := flow.Rel(f)
-		if !ok {
-			return false
-		}
-		lenP := func(e ast.Expr) bool {
-			call, ok := ast.Unparen(e).(*ast.CallExpr)
-			return ok && flow.IsBuiltin(info, call, "len") && isP(call.Args[0])
-		}
-		return lenP(x) && isMax(y) && (op == token.LEQ || op == token.LSS || op == token.EQL) || isMax(x) && lenP(y) && (op == token.GEQ || op == token.GTR || op == token.EQL)
-	})
-	unknownCut := false
-	core.Inspect(fn.Decl.Body, func(m ast.Node) bool {
-		if as, ok := m.(*ast.AssignStmt); ok && assignsTo(info, p)(as) && !clamp(as) && !reslice(info, as, isP, func(ast.Expr) bool { return true }) {
-			unknownCut = true
-		}
-		return true
-	})
-	if unknownCut {
-		c.Undecidedf("R3.bounded", "Iocopy/buffer-assignments", fn.Decl.Pos(), "the buffer parameter is re-assigned in a form other than p = p[:k]")
-		return
-	}
-	switch arg := ast.Unparen(reads[0].Args[0]); {
-	case isP(arg):
-		w := g.Path(cfgq.Query{From: g.Entry(), Avoid: clamp, AvoidEdge: small, Target: isNode(rp.Node())})
-		c.Check("R3.bounded", "Iocopy/read-at-most-max", reads[0].Pos(), w == nil,
-			"the buffer handed to Read must hold at most max bytes on every path (len(p) <= max tested, or p = p[:max]): otherwise one Read takes bytes beyond the end of the RDB, which are written to the RDB consumer / dump file and are missing from the command stream", w...)
-	case prefixOf(info, arg, isP, isMax):
-		c.Okf("R3.bounded", "Iocopy/read-at-most-max", reads[0].Pos(), "reads into p[:max]")
-	default:
-		c.Undecidedf("R3.bounded", "Iocopy/read-at-most-max", reads[0].Pos(), "Read argument %s not recognised", c.Src(arg))
-	}
-	// (b) exactly the prefix read is written
-	n := assignedVar(info, fn.Decl.Body, reads[0], 0)
-	if n == nil {
-		c.Undecidedf("R3.bounded", "Iocopy/write-prefix", reads[0].Pos(), "the byte count returned by Read is not bound to a variable")
-		return
-	}
-	trunc := func(m ast.Node) bool { return reslice(info, m, isP, flow.IsObj(info, n)) }
-	isPrefix := func(e ast.Expr) bool { return prefixOf(info, e, isP, flow.IsObj(info, n)) }
-	okDom, wd := g.Dominated(wp, isNode(rp.Node()))
-	c.Check("R3.bounded", "Iocopy/read-before-write", writes[0].Pos(), okDom, "the write must follow the read", wd...)
-	switch arg := ast.Unparen(writes[0].Args[0]); {
-	case isP(arg):
-		w := g.Path(cfgq.Query{From: rp, After: true, Avoid: trunc, Target: isNode(wp.Node())})
-		c.Check("R3.bounded", "Iocopy/write-prefix", writes[0].Pos(), w == nil, "between Read and Write the buffer must be cut to the n bytes read (p = p[:n]): otherwise stale buffer bytes are written after the fresh ones", w...)
-	case isPrefix(arg):
-		c.Okf("R3.bounded", "Iocopy/write-prefix", writes[0].Pos(), "writes p[:n]")
-	default:
-		c.Undecidedf("R3.bounded", "Iocopy/write-prefix", writes[0].Pos(), "Write argument %s not recognised", c.Src(arg))
-	}
-	// (c) the result is the number of bytes moved
-	nret := 0
-	for _, pt := range g.Points(func(m ast.Node) bool { _, ok := m.(*ast.ReturnStmt); return ok }) {
-		ret := pt.Node().(*ast.ReturnStmt)
-		nret++
-		res := unconv(info, ret.Results[0])
-		call, isCall := res.(*ast.CallExpr)
-		switch {
-		case flow.IsObj(info, n)(res):
-			c.Okf("R3.bounded", "Iocopy/returns-count", ret.Pos(), "returns n")
-		case isCall && flow.IsBuiltin(info, call, "len") && isP(call.Args[0]):
-			w := g.Path(cfgq.Query{From: rp, After: true, Avoid: trunc, Target: isNode(ret)})
-			c.Check("R3.bounded", "Iocopy/returns-count", ret.Pos(), w == nil, "len(p) is the number of bytes moved only after p = p[:n]: a larger result makes the caller's countdown end before the RDB does", w...)
-		default:
-			c.Undecidedf("R3.bounded", "Iocopy/returns-count", ret.Pos(), "result %s not recognised", c.Src(ret.Results[0]))
-		}
-		okW, ww := g.Dominated(pt, isNode(wp.Node()))
-		c.Check("R3.bounded", "Iocopy/write-before-return", ret.Pos(), okW, "the bytes counted in the result must have been written", ww...)
-	}
-	if nret == 0 {
-		c.Undecidedf("R3.bounded", "Iocopy/returns-count", fn.Decl.Pos(), "no return statement")
-	}
-}
-
-// remaining checks one RDB copy loop: Iocopy(..., max) with max the remaining count.
-func (r *rs) boundedCaller(key string, fn *core.Fn, root ast.Node, iocopy *core.Fn, wantReader types.Object) {
-	c := r.c
-	info := fn.Pkg.TypesInfo
-	calls := callsTo(info, root, iocopy.Obj, false)
-	if len(calls) != 1 {
-		c.Undecidedf("R3.bounded", key+"/copy", root.Pos(), "expected one Iocopy call in the RDB copy, found %d", len(calls))
-		return
-	}
-	call := calls[0]
-	c.Check("R2.reader", key+"/copy-reader", call.Pos(), flow.IsObj(info, wantReader)(call.Args[0]),
-		"the RDB is copied from the buffered reader that was handed over: bytes already buffered there would otherwise be skipped")
-	path := core.PathTo(root, call)
-	var loop *ast.ForStmt
-	for _, n := range path {
-		if fs, ok := n.(*ast.ForStmt); ok {
-			loop = fs
-		}
-	}
-	maxArg := flow.Resolve(info, root, call.Args[3])
-	pbuf := flow.Obj(info, call.Args[2])
-	if lc, ok := unconv(info, maxArg).(*ast.CallExpr); ok && flow.IsBuiltin(info, lc, "len") && pbuf != nil && flow.IsObj(info, pbuf)(lc.Args[0]) {
-		c.Failf("R3.bounded", key+"/max-is-remaining", call.Pos(), "the RDB copy is bounded by the buffer size, not by the bytes still to copy: the last Read runs past the end of the RDB and the first command bytes end up in the RDB consumer / dump file")
-		return
-	}
-	// form A: x -= Iocopy(.., x)   under  for x != 0
-	var stmt ast.Stmt
-	for _, n := range path {
-		if s, ok := n.(ast.Stmt); ok {
-			if _, isBlock := s.(*ast.BlockStmt); !isBlock {
-				stmt = s
-			}
-		}
-	}
-	_ = stmt
-	if x := flow.Obj(info, maxArg); x != nil {
-		sub := false
-		isCall := func(e ast.Expr) bool { return unconv(info, flow.ValueOf(info, root, unconv(info, e))) == ast.Expr(call) }
-		core.Inspect(root, func(m ast.Node) bool {
-			if as, ok := m.(*ast.AssignStmt); ok && len(as.Lhs) == 1 && len(as.Rhs) == 1 && flow.IsObj(info, x)(as.Lhs[0]) {
-				if as.Tok == token.SUB_ASSIGN && isCall(as.Rhs[0]) {
-					sub = true
-				}
-				if be, ok := ast.Unparen(as.Rhs[0]).(*ast.BinaryExpr); ok && as.Tok == token.ASSIGN && be.Op == token.SUB && flow.IsObj(info, x)(be.X) && isCall(be.Y) {
-					sub = true
-				}
-			}
-			return true
-		})
-		if !sub {
-			c.Undecidedf("R3.bounded", key+"/max-is-remaining", call.Pos(), "the result of Iocopy is not subtracted from its max argument %s", x.Name())
-			return
-		}
-		c.Okf("R3.bounded", key+"/max-is-remaining", call.Pos(), "max is the remaining count %s and the result is subtracted from it", x.Name())
-		isX := flow.IsObj(info, x)
-		if loop == nil || loop.Cond == nil {
-			c.Undecidedf("R3.bounded", key+"/until-exhausted", call.Pos(), "the copy is not inside a conditional for loop")
-			return
-		}
-		okc := false
-		for _, f := range cfgq.Facts(loop.Cond, true) {
-			okc = okc || nonZero(info, f, isX)
-		}
-		okx := false
-		for _, f := range cfgq.Facts(loop.Cond, false) {
-			if op, k, ok := flow.Cmp(info, f, isX); ok && (op == token.EQL && k == 0 || op == token.LEQ && k == 0 || op == token.LSS && k == 1) {
-				okx = true
-			}
-		}
-		c.Check("R3.bounded", key+"/until-exhausted", loop.Pos(), okc && okx, fmt.Sprintf("the loop must run while %s != 0 and stop only at 0: stopping earlier leaves RDB bytes in front of the command stream", x.Name()))
-		return
-	}
-	// form B: max = int(total - done.Get()); done.Add(int64(Iocopy(..)))  under  for total != done.Get()
-	b := pat.Expr("_total - _done.Get()").Match(info, unconv(info, maxArg), nil)
-	if b == nil {
-		c.Undecidedf("R3.bounded", key+"/max-is-remaining", call.Pos(), "max argument %s is neither the remaining counter nor total - done.Get()", c.Src(call.Args[3]))
-		return
-	}
-	added := false
-	core.Inspect(root, func(m ast.Node) bool {
-		if ac, ok := m.(*ast.CallExpr); ok {
-			if ab := pat.Expr("_done.Add(_v)").Match(info, ac, pat.Binds{"_done": b["_done"]}); ab != nil {
-				if unconv(info, flow.ValueOf(info, root, unconv(info, ab["_v"].(ast.Expr)))) == ast.Expr(call) {
-					added = true
-				}
-			}
-		}
-		return true
-	})
-	if !added {
-		c.Undecidedf("R3.bounded", key+"/max-is-remaining", call.Pos(), "the result of Iocopy is not added to the progress counter %s", c.Src(b["_done"]))
-		return
-	}
-	c.Okf("R3.bounded", key+"/max-is-remaining", call.Pos(), "max is total - done and the result is added to done")
-	if loop == nil || loop.Cond == nil {
-		c.Undecidedf("R3.bounded", key+"/until-exhausted", call.Pos(), "the copy is not inside a conditional for loop")
-		return
-	}
-	okc := pat.Expr("_total != _done.Get()").Match(info, loop.Cond, b) != nil || pat.Expr("_done.Get() < _total").Match(info, loop.Cond, b) != nil
-	c.Check("R3.bounded", key+"/until-exhausted", loop.Pos(), okc, "the loop must run exactly while done != total: stopping earlier truncates the dump and leaves RDB bytes in front of the command stream")
-}
-
-// ---------------------------------------------------------------------------
-// R5: SendPSyncContinue
-
-func (r *rs) psyncReply() {
-	c := r.c
-	fn, wait := c.Func(pkgU, "", "SendPSyncContinue"), c.Func(pkgU, "", "waitRdbDump")
-	if fn == nil || wait == nil {
-		return
-	}
-	info := fn.Pkg.TypesInfo
-	g := cfgq.Of(c.Program, fn)
-	brID, br := param(fn, 0)
-	runID, _ := param(fn, 2)
-	offID, _ := param(fn, 3)
-	// reply decoded from br
-	dec, db := pat.Stmt("_r, _e = redis.Decode(_br)").Find(info, fn.Decl.Body, pat.Binds{"_br": brID})
-	if dec == nil {
-		c.Undecidedf("R5.reply", "SendPSyncContinue/decode", fn.Decl.Pos(), "cannot find `r, e := redis.Decode(br)` on the reader parameter")
-		return
-	}
-	_, sb := pat.Stmt("_x, _err = redis.AsString(_r, nil)").Find(info, fn.Decl.Body, db)
-	var xb pat.Binds
-	if sb != nil {
-		_, xb = pat.Stmt("_xx = strings.Split(string(_x), _sep)").Find(info, fn.Decl.Body, sb)
-	}
-	if xb == nil {
-		c.Undecidedf("R5.reply", "SendPSyncContinue/fields", dec.Pos(), "cannot find the reply line being split into fields")
-		return
-	}
-	if s, ok := core.StringConst(info, xb["_sep"].(ast.Expr)); !ok || s != " " {
-		c.Check("R5.reply", "SendPSyncContinue/fields", dec.Pos(), false, fmt.Sprintf("the reply fields are separated by one space (found %q): run id and offset are taken from the wrong places", s))
-	}
-	field := func(e ast.Expr) int64 {
-		b := pat.Expr("_xx[_i]").Match(info, e, pat.Binds{"_xx": xb["_xx"]})
-		if b == nil {
-			return -1
-		}
-		k, ok := core.IntConst(info, b["_i"].(ast.Expr))
-		if !ok {
-			return -1
-		}
-		return k
-	}
-	// keyword tests
-	kwFact := func(want string) func(cfgq.Fact) bool {
-		return func(f cfgq.Fact) bool {
-			s, eq, ok := flow.StrCmp(info, f, func(e ast.Expr) bool { return true })
-			return ok && eq && strings.ToLower(s) == want
-		}
-	}
-	seen := map[string]bool{}
-	core.Inspect(fn.Decl.Body, func(m ast.Node) bool {
-		be, ok := m.(*ast.BinaryExpr)
-		if !ok || be.Op != token.EQL && be.Op != token.NEQ {
-			return true
-		}
-		for _, side := range [][2]ast.Expr{{be.X, be.Y}, {be.Y, be.X}} {
-			s, isC := core.StringConst(info, side[1])
-			kw := strings.ToLower(s)
-			if !isC || kw != "continue" && kw != "fullresync" {
-				continue
-			}
-			seen[kw] = true
-			key := "SendPSyncContinue/keyword-" + kw
-			other := ast.Unparen(side[0])
-			call, isCall := other.(*ast.CallExpr)
-			f := (*types.Func)(nil)
-			if isCall {
-				f = core.CalleeFunc(info, call)
-			}
-			switch {
-			case f != nil && core.IsFunc(f, "strings", "", "ToLower") && field(call.Args[0]) == 0:
-				c.Check("R5.reply", key, be.Pos(), s == kw, fmt.Sprintf("a lower-cased field is compared with %q, which can never match: the reply is rejected whatever its letter case", s))
-			case f != nil && core.IsFunc(f, "strings", "", "ToUpper") && field(call.Args[0]) == 0:
-				c.Check("R5.reply", key, be.Pos(), s == strings.ToUpper(s), fmt.Sprintf("an upper-cased field is compared with %q, which can never match: the reply is rejected whatever its letter case", s))
-			case field(other) == 0:
-				c.Failf("R5.reply", key, be.Pos(), "field 0 is compared with %q case-sensitively: a reply spelled in the other letter case (e.g. %q) is rejected", s, swapCase(s))
-			default:
-				c.Undecidedf("R5.reply", key, be.Pos(), "keyword comparison %s not recognised", c.Src(be))
-			}
-		}
-		return true
-	})
-	for _, kw := range []string{"continue", "fullresync"} {
-		if !seen[kw] {
-			c.Undecidedf("R5.reply", "SendPSyncContinue/keyword-"+kw, fn.Decl.Pos(), "no comparison with the keyword %q found (strings.EqualFold or another idiom?)", kw)
-		}
-	}
-	// classify successful returns by the keyword edge they sit behind
-	nc, nf := 0, 0
-	for _, pt := range g.Points(func(m ast.Node) bool { ret, ok := m.(*ast.ReturnStmt); return ok && len(ret.Results) == 4 }) {
-		ret := pt.Node().(*ast.ReturnStmt)
-		if !core.IsNil(info, ret.Results[3]) {
-			continue
-		}
-		viaC, _ := flow.OnlyVia(g, pt, kwFact("continue"))
-		viaF, _ := flow.OnlyVia(g, pt, kwFact("fullresync"))
-		switch {
-		case viaC && !viaF:
-			nc++
-			r.continueReturn(fn, g, ret, runID, offID)
-		case viaF && !viaC:
-			nf++
-			// run id <- field 1, offset <- ParseInt(field 2), header read from br
-			rid := flow.Resolve(info, fn.Decl.Body, ret.Results[0])
-			c.Check("R5.reply", "SendPSyncContinue/fullresync-runid", ret.Pos(), field(rid) == 1, fmt.Sprintf("on FULLRESYNC the run id is reply field 1 (found %s): a wrong run id makes every later PSYNC a full resync or, worse, continues the wrong history", c.Src(rid)))
-			off := flow.Resolve(info, fn.Decl.Body, ret.Results[1])
-			okOff := false
-			if oo := flow.Obj(info, off); oo != nil {
-				if as, ob := pat.Stmt("_v, _e2 = strconv.ParseInt(_src, _base, _bits)").Find(info, fn.Decl.Body, nil); as != nil && flow.Obj(info, ob["_v"]) == oo {
-					okOff = field(ob["_src"].(ast.Expr)) == 2 && isConst(info, ob["_base"].(ast.Expr), 10) && isConst(info, ob["_bits"].(ast.Expr), 64)
-				}
-			}
-			c.Check("R5.reply", "SendPSyncContinue/fullresync-offset", ret.Pos(), okOff, "on FULLRESYNC the offset is ParseInt(field 2, 10, 64): any other value shifts every offset acknowledged and resumed from afterwards")
-			wc, isCall := ast.Unparen(ret.Results[2]).(*ast.CallExpr)
-			if !isCall || core.CalleeFunc(info, wc) != wait.Obj {
-				c.Undecidedf("R2.reader", "SendPSyncContinue/header-reader", ret.Pos(), "the third result %s is not a call of waitRdbDump", c.Src(ret.Results[2]))
-			} else {
-				c.Check("R2.reader", "SendPSyncContinue/header-reader", wc.Pos(), flow.IsObj(info, br)(wc.Args[0]),
-					"the RDB header must be read from the very reader that decoded +FULLRESYNC: that reader may already hold the '$n' line and RDB bytes in its buffer, which any other reader never sees")
-			}
-		default:
-			c.Undecidedf("R5.reply", "SendPSyncContinue/success-return", ret.Pos(), "successful return %s is not behind exactly one keyword test", c.Src(ret))
-		}
-	}
-	if nc != 1 || nf != 1 {
-		c.Undecidedf("instances", "R5.reply", fn.Decl.Pos(), "expected one successful return per keyword, found continue=%d fullresync=%d", nc, nf)
-	}
-}
-
-func swapCase(s string) string {
-	if s == strings.ToLower(s) {
-		return strings.ToUpper(s)
-	}
-	return strings.ToLower(s)
-}
-
-// continueReturn: `return runid, offset - k, nil, nil` with runid = InRunid, offset = inOffset (+k when != -1).
-func (r *rs) continueReturn(fn *core.Fn, g *cfgq.Graph, ret *ast.ReturnStmt, runID, offID *ast.Ident) {
-	c := r.c
-	info := fn.Pkg.TypesInfo
-	body := fn.Decl.Body
-	c.Check("R5.reply", "SendPSyncContinue/continue-no-rdb", ret.Pos(), core.IsNil(info, ret.Results[2]), "on CONTINUE no RDB follows: the wait channel must be nil so that the caller starts the command phase at once")
-	// run id
-	valueIs := func(e ast.Expr, src *ast.Ident) (bool, bool) {
-		if pat.Same(info, e, src) {
-			return true, true
-		}
-		o := flow.Obj(info, e)
-		if o == nil {
-			return false, false
-		}
-		defs, other := defsOf(info, body, o)
-		if other > 0 || len(defs) != 1 {
-			return false, false
-		}
-		return pat.Same(info, defs[0], src), true
-	}
-	ok, known := valueIs(ret.Results[0], runID)
-	if !known {
-		c.Undecidedf("R5.reply", "SendPSyncContinue/continue-runid", ret.Pos(), "cannot trace %s to a single definition", c.Src(ret.Results[0]))
-	} else {
-		c.Check("R5.reply", "SendPSyncContinue/continue-runid", ret.Pos(), ok, "on CONTINUE the caller's run id is returned unchanged")
-	}
-	// offset: the value sent is inOffset+k (when != -1), the value returned must undo exactly that k
-	b := pat.Expr("_off - _k").Match(info, ret.Results[1], nil)
-	var back int64
-	var off types.Object
-	if b != nil {
-		k, isC := core.IntConst(info, b["_k"].(ast.Expr))
-		if !isC {
-			b = nil
-		}
-		back, off = k, flow.Obj(info, b["_off"])
-	} else if o := flow.Obj(info, ret.Results[1]); o != nil {
-		b, off = pat.Binds{}, o
-	}
-	if b == nil || off == nil {
-		c.Undecidedf("R5.reply", "SendPSyncContinue/continue-offset", ret.Pos(), "offset result %s not recognised", c.Src(ret.Results[1]))
-		return
-	}
-	var fwd int64
-	nplain, nother := 0, 0
-	core.Inspect(body, func(m ast.Node) bool {
-		switch s := m.(type) {
-		case *ast.AssignStmt:
-			for i, l := range s.Lhs {
-				if !flow.IsObj(info, off)(l) {
-					continue
-				}
-				k, isC := int64(0), false
-				if len(s.Lhs) == len(s.Rhs) {
-					k, isC = core.IntConst(info, s.Rhs[i])
-				}
-				switch {
-				case s.Tok == token.ASSIGN && len(s.Lhs) == len(s.Rhs) && pat.Same(info, s.Rhs[i], offID):
-					nplain++
-				case s.Tok == token.ADD_ASSIGN && isC:
-					fwd += k
-				case s.Tok == token.SUB_ASSIGN && isC:
-					fwd -= k
-				default:
-					nother++
-				}
-			}
-		case *ast.IncDecStmt:
-			if flow.IsObj(info, off)(s.X) {
-				if s.Tok == token.INC {
-					fwd++
-				} else {
-					fwd--
-				}
-			}
-		}
-		return true
-	})
-	if nplain != 1 || nother > 0 {
-		c.Undecidedf("R5.reply", "SendPSyncContinue/continue-offset", ret.Pos(), "the offset variable is not `offset = inOffset` plus constant adjustments")
-		return
-	}
-	c.Check("R5.reply", "SendPSyncContinue/continue-offset", ret.Pos(), fwd == back,
-		fmt.Sprintf("PSYNC is sent with inOffset%+d and CONTINUE returns that value %+d: the caller's offset comes back shifted by %+d, so the bytes counted from it are acknowledged/resumed at the wrong position (lost or duplicated after a reconnect)", fwd, -back, fwd-back))
-}
-
-// ---------------------------------------------------------------------------
-// R2 / R5.use: sendPSyncCmd
-
-func (r *rs) sendPSyncCmd() {
-	c := r.c
-	fn, spc, ris := c.Func(pkgS, "DbSyncer", "sendPSyncCmd"), c.Func(pkgU, "", "SendPSyncContinue"), c.Func(pkgS, "DbSyncer", "runIncrementalSync")
-	if fn == nil || spc == nil || ris == nil {
-		return
-	}
-	info := fn.Pkg.TypesInfo
-	g := cfgq.Of(c.Program, fn)
-	calls := callsTo(info, fn.Decl.Body, spc.Obj, false)
-	if len(calls) != 1 {
-		c.Undecidedf("R2.reader", "sendPSyncCmd/handshake-reader", fn.Decl.Pos(), "expected one SendPSyncContinue call, found %d", len(calls))
-		return
-	}
-	hs := calls[0]
-	nrs := readersLike(info, fn.Decl.Body, newReaders(info, fn.Decl.Body, true), flow.Obj(info, hs.Args[0]))
-	if len(nrs) == 0 {
-		c.Undecidedf("R2.reader", "sendPSyncCmd/one-reader", fn.Decl.Pos(), "no bufio reader is created")
-		return
-	}
-	conn := flow.Obj(info, nrs[0].Args[0])
-	br := assignedVar(info, fn.Decl.Body, nrs[0], 0)
-	pt, inGraph := g.Find(nrs[0])
-	loops := inGraph && g.Path(cfgq.Query{From: pt, After: true, Target: isNode(pt.Node())}) != nil
-	c.Check("R2.reader", "sendPSyncCmd/one-reader", nrs[0].Pos(), len(nrs) == 1 && !loops,
-		fmt.Sprintf("exactly one buffered reader may be created over the source connection (found %d, in a loop: %v): a second reader starts behind whatever the first one has already buffered (the '$n' header or RDB bytes), which is lost", len(nrs), loops))
-	if conn == nil || br == nil || flow.Assignments(info, fn.Decl.Body, br) != 1 || flow.Assignments(info, fn.Decl.Body, conn) != 1 {
-		c.Undecidedf("R2.reader", "sendPSyncCmd/reader-var", nrs[0].Pos(), "connection or reader is not a single-assignment variable")
-		return
-	}
-	c.Check("R2.reader", "sendPSyncCmd/handshake-reader", hs.Pos(), flow.IsObj(info, br)(hs.Args[0]), "the PSYNC reply must be decoded through the connection's single buffered reader")
-	// results of the handshake
-	var res [4]types.Object
-	for i := range res {
-		res[i] = assignedVar(info, fn.Decl.Body, hs, i)
-	}
-	if res[0] == nil || res[1] == nil || res[2] == nil {
-		c.Undecidedf("R5.use", "sendPSyncCmd/results", hs.Pos(), "the results of SendPSyncContinue are not bound to variables")
-		return
-	}
-	hp, _ := g.Find(hs)
-	gos := callsTo(info, fn.Decl.Body, ris.Obj, false)
-	if len(gos) < 2 {
-		c.Undecidedf("instances", "R2.reader", fn.Decl.Pos(), "expected the CONTINUE and the FULLRESYNC start of runIncrementalSync, found %d", len(gos))
-	}
-	// the announced offset is stored before the copy starts
-	stored := func(m ast.Node) bool {
-		as, ok := m.(*ast.AssignStmt)
-		if !ok || len(as.Lhs) != len(as.Rhs) {
-			return false
-		}
-		for i, l := range as.Lhs {
-			if core.IsFieldNamed(info, l, "DbSyncer", "sourceOffset") && flow.IsObj(info, res[1])(as.Rhs[i]) {
-				return true
-			}
-		}
-		return false
-	}
-	for i, gc := range gos {
-		key := fmt.Sprintf("sendPSyncCmd/start#%d", i+1)
-		gp, ok := g.Find(gc)
-		if !ok {
-			c.Undecidedf("R2.reader", key, gc.Pos(), "call not in the control-flow graph")
-			continue
-		}
-		c.Check("R2.reader", key+"/same-conn-and-reader", gc.Pos(), flow.IsObj(info, conn)(gc.Args[0]) && flow.IsObj(info, br)(gc.Args[1]),
-			"the copy goroutine must get the connection together with the one reader created over it: the reader holds the bytes that follow the PSYNC reply")
-		okS, wS := g.Dominated(gp, stored)
-		c.Check("R5.use", key+"/offset-stored", gc.Pos(), okS, "the offset announced by the source must be stored in ds.sourceOffset before the stream is consumed: all later ACKs and checkpoints count from it", wS...)
-		c.Check("R5.use", key+"/runid-passed", gc.Pos(), flow.IsObj(info, res[0])(gc.Args[4]), "the run id announced by the source is the one the copy loop reconnects with")
-		// the size
-		isWait := flow.IsObj(info, res[2])
-		size := unconv(info, flow.Resolve(info, fn.Decl.Body, gc.Args[3]))
-		if isConst(info, size, 0) {
-			okN, wN := flow.OnlyVia(g, gp, func(f cfgq.Fact) bool { isNil, ok := flow.NilCmp(info, f, isWait); return ok && isNil })
-			c.Check("R5.use", key+"/size", gc.Pos(), okN, "the copy may start with RDB size 0 only when the handshake returned no wait channel (CONTINUE): otherwise the RDB is fed to the command parser", wN...)
-		} else if so := flow.Obj(info, size); so != nil {
-			recv := false
-			core.Inspect(fn.Decl.Body, func(m ast.Node) bool {
-				if as, ok := m.(*ast.AssignStmt); ok && len(as.Lhs) == 1 && len(as.Rhs) == 1 && flow.IsObj(info, so)(as.Lhs[0]) {
-					if u, ok := ast.Unparen(as.Rhs[0]).(*ast.UnaryExpr); ok && u.Op == token.ARROW && isWait(u.X) {
-						recv = true
-					}
-				}
-				return true
-			})
-			okZ, wZ := flow.OnlyVia(g, gp, func(f cfgq.Fact) bool { return nonZero(info, f, flow.IsObj(info, so)) })
-			c.Check("R5.use", key+"/size", gc.Pos(), recv && okZ, "the RDB size handed to the copy loop is the non-zero value received from the handshake's wait channel (0 ticks are keep-alives)", wZ...)
-		} else {
-			c.Undecidedf("R5.use", key+"/size", gc.Pos(), "size argument %s not recognised", c.Src(gc.Args[3]))
-		}
-	}
-	// successful returns report the announced run id
-	for _, p := range g.Points(func(m ast.Node) bool { ret, ok := m.(*ast.ReturnStmt); return ok && len(ret.Results) == 5 }) {
-		ret := p.Node().(*ast.ReturnStmt)
-		if !core.IsNil(info, ret.Results[4]) || g.Path(cfgq.Query{From: hp, After: true, Target: isNode(ret)}) == nil {
-			continue
-		}
-		c.Check("R5.use", "sendPSyncCmd/returns-runid", ret.Pos(), flow.IsObj(info, res[0])(ret.Results[3]), "the run id reported to Sync is the one announced by the source")
-	}
-}
-
-// ---------------------------------------------------------------------------
-// R2 + R3 caller: runIncrementalSync
-
-func (r *rs) runIncrementalSync() {
-	c := r.c
-	fn, ioc, ppc := c.Func(pkgS, "DbSyncer", "runIncrementalSync"), c.Func(pkgU, "", "Iocopy"), c.Func(pkgS, "DbSyncer", "pSyncPipeCopy")
-	if fn == nil || ioc == nil || ppc == nil {
-		return
-	}
-	info := fn.Pkg.TypesInfo
-	g := cfgq.Of(c.Program, fn)
-	_, conn := param(fn, 0)
-	_, br := param(fn, 1)
-	r.boundedCaller("runIncrementalSync", fn, fn.Decl.Body, ioc, br)
-	setsConn, setsBr := assignsTo(info, conn), assignsTo(info, br)
-	copies := callsTo(info, fn.Decl.Body, ppc.Obj, false)
-	isCopy := flow.CallOn(g, func(call *ast.CallExpr) bool {
-		f := core.CalleeFunc(info, call)
-		return f == ppc.Obj || f == ioc.Obj
-	})
-	for i, call := range copies {
-		c.Check("R2.reader", fmt.Sprintf("runIncrementalSync/stream-copy#%d", i+1), call.Pos(), flow.IsObj(info, conn)(call.Args[0]) && flow.IsObj(info, br)(call.Args[1]),
-			"the command stream is copied from the reader that the RDB was copied from (and the connection it wraps): the first command bytes are usually already in that reader's buffer")
-	}
-	if len(copies) == 0 {
-		c.Undecidedf("R2.reader", "runIncrementalSync/stream-copy", fn.Decl.Pos(), "no pSyncPipeCopy call")
-	}
-	for i, nr := range newReaders(info, fn.Decl.Body, false) {
-		key := fmt.Sprintf("runIncrementalSync/new-reader#%d", i+1)
-		p, ok := g.Find(nr)
-		if !ok || !flow.IsObj(info, conn)(nr.Args[0]) || assignedVar(info, fn.Decl.Body, nr, 0) != br {
-			c.Undecidedf("R2.reader", key, nr.Pos(), "%s is not `br = bufio.NewReader*(c)`", c.Src(nr))
-			continue
-		}
-		w := g.Path(cfgq.Query{From: g.Entry(), Avoid: setsConn, Target: isNode(p.Node())})
-		c.Check("R2.reader", key+"/only-on-new-conn", nr.Pos(), w == nil, "a new buffered reader may be created only after the connection variable was replaced: a second reader over the original connection misses the bytes the first one has buffered", w...)
-		w2 := g.Path(cfgq.Query{From: p, After: true, Avoid: setsConn, Target: func(m ast.Node) bool {
-			return len(newReaders(info, m, false)) > 0
-		}})
-		c.Check("R2.reader", key+"/once-per-conn", nr.Pos(), w2 == nil, "at most one buffered reader per connection", w2...)
-	}
-	for i, p := range g.Points(setsConn) {
-		w := g.Path(cfgq.Query{From: p, After: true, Avoid: cfgq.Or(setsBr, setsConn), Target: isCopy})
-		c.Check("R2.reader", fmt.Sprintf("runIncrementalSync/reconnect#%d/fresh-reader", i+1), p.Node().Pos(), w == nil, "after the connection was replaced nothing may be copied through the old reader: it still holds (and would replay) bytes of the dead connection", w...)
-	}
-}
-
-// ---------------------------------------------------------------------------
-// R6: pSyncPipeCopy
-
-func (r *rs) pipeCopy() {
-	c := r.c
-	fn := c.Func(pkgS, "DbSyncer", "pSyncPipeCopy")
-	if fn == nil {
-		return
-	}
-	info := fn.Pkg.TypesInfo
-	g := cfgq.Of(c.Program, fn)
-	_, br := param(fn, 1)
-	_, dst := param(fn, 3)
-	reads := flow.FindCalls(fn.Decl.Body, func(call *ast.CallExpr) bool { return flow.MethodOn(call, "Read", flow.IsObj(info, br)) && len(call.Args) == 1 })
-	writes := flow.FindCalls(fn.Decl.Body, func(call *ast.CallExpr) bool { return flow.MethodOn(call, "Write", flow.IsObj(info, dst)) && len(call.Args) == 1 })
-	if len(reads) != 1 || len(writes) != 1 {
-		c.Undecidedf("R6.copy", "pSyncPipeCopy/shape", fn.Decl.Pos(), "expected one br.Read and one copyto.Write, found %d and %d", len(reads), len(writes))
-		return
-	}
-	rd, wr := reads[0], writes[0]
-	n, rerr := assignedVar(info, fn.Decl.Body, rd, 0), assignedVar(info, fn.Decl.Body, rd, 1)
-	werr := assignedVar(info, fn.Decl.Body, wr, 1)
-	buf := flow.Obj(info, rd.Args[0])
-	if n == nil || rerr == nil || werr == nil || buf == nil {
-		c.Undecidedf("R6.copy", "pSyncPipeCopy/shape", rd.Pos(), "results of Read/Write are not bound to variables")
-		return
-	}
-	rp, _ := g.Find(rd)
-	wp, _ := g.Find(wr)
-	nilFact := func(o types.Object) func(cfgq.Fact) bool {
-		return func(f cfgq.Fact) bool { isNil, ok := flow.NilCmp(info, f, flow.IsObj(info, o)); return ok && isNil }
-	}
-	// written slice
-	arg := ast.Unparen(flow.Resolve(info, fn.Decl.Body, wr.Args[0]))
-	switch {
-	case prefixOf(info, arg, flow.IsObj(info, buf), flow.IsObj(info, n)):
-		c.Okf("R6.copy", "pSyncPipeCopy/write-prefix", wr.Pos(), "writes p[:n]")
-	case flow.IsObj(info, buf)(arg):
-		c.Failf("R6.copy", "pSyncPipeCopy/write-prefix", wr.Pos(), "the whole buffer is written instead of the n bytes read: stale bytes of earlier reads are injected into the command stream")
-	default:
-		c.Undecidedf("R6.copy", "pSyncPipeCopy/write-prefix", wr.Pos(), "Write argument %s not recognised", c.Src(arg))
-	}
-	ok1, w1 := flow.OnlyVia(g, wp, nilFact(rerr))
-	okd, _ := g.Dominated(wp, isNode(rp.Node()))
-	c.Check("R6.copy", "pSyncPipeCopy/write-after-good-read", wr.Pos(), ok1 && okd, "a write happens only after a read that returned no error", w1...)
-	// the counter
-	adds := flow.FindCalls(fn.Decl.Body, func(call *ast.CallExpr) bool {
-		return pat.Expr("_c.Add(_v)").Match(info, call, nil) != nil && flow.IsObj(info, n)(unconv(info, call.Args[0]))
-	})
-	if len(adds) != 1 {
-		c.Undecidedf("R6.copy", "pSyncPipeCopy/count", fn.Decl.Pos(), "expected one counter.Add(n), found %d", len(adds))
-		return
-	}
-	ap, _ := g.Find(adds[0])
-	okA, wA := g.Dominated(ap, isNode(wp.Node()))
-	okE, wE := flow.OnlyVia(g, ap, nilFact(werr))
-	c.Check("R6.copy", "pSyncPipeCopy/count-after-write", adds[0].Pos(), okA, "n is counted only after the n bytes were written: counting first advances the acknowledged offset past bytes that a failing write never delivered", wA...)
-	c.Check("R6.copy", "pSyncPipeCopy/count-only-on-success", adds[0].Pos(), okE, "n is counted only when the write reported no error: otherwise the offset used for the reconnect skips bytes that were never forwarded (lost)", wE...)
-	w := g.Path(cfgq.Query{From: wp, After: true, Avoid: isNode(ap.Node()), AvoidEdge: flow.ErrEdge(g), Target: isNode(rp.Node())})
-	c.Check("R6.copy", "pSyncPipeCopy/every-write-counted", wr.Pos(), w == nil, "every successful write is counted before the next read: uncounted bytes are requested again after a reconnect (duplicated)", w...)
-	w2 := g.Path(cfgq.Query{From: rp, After: true, Avoid: isNode(wp.Node()), AvoidEdge: flow.ErrEdge(g), Target: isNode(rp.Node())})
-	c.Check("R6.copy", "pSyncPipeCopy/every-read-written", rd.Pos(), w2 == nil, "every successful read is written before the next read: otherwise the bytes of that read are dropped", w2...)
-}
-
-// ---------------------------------------------------------------------------
-// dump mode and Sync: one reader, RDB loop bounded and flushed
-
-func (r *rs) dumpSide() {
-	c := r.c
-	dump, sendCmd, rdbFile := c.Func(pkgR, "dbDumper", "dump"), c.Func(pkgR, "dbDumper", "sendCmd"), c.Func(pkgR, "dbDumper", "dumpRDBFile")
-	ioc, flush := c.Func(pkgU, "", "Iocopy"), c.Func(pkgU, "", "FlushWriter")
-	if dump == nil || sendCmd == nil || rdbFile == nil || ioc == nil || flush == nil {
-		return
-	}
-	info := dump.Pkg.TypesInfo
-	sc := callsTo(info, dump.Decl.Body, sendCmd.Obj, false)
-	df := callsTo(info, dump.Decl.Body, rdbFile.Obj, false)
-	var nrs []*ast.CallExpr
-	if len(df) == 1 {
-		nrs = readersLike(info, dump.Decl.Body, newReaders(info, dump.Decl.Body, true), flow.Obj(info, df[0].Args[0]))
-	}
-	if len(nrs) == 0 || len(sc) != 1 || len(df) != 1 {
-		c.Undecidedf("R2.reader", "dump/shape", dump.Decl.Pos(), "expected sendCmd, one buffered reader and dumpRDBFile in dump")
-		return
-	}
-	master, size := assignedVar(info, dump.Decl.Body, sc[0], 0), assignedVar(info, dump.Decl.Body, sc[0], 1)
-	rdv := assignedVar(info, dump.Decl.Body, nrs[0], 0)
-	c.Check("R2.reader", "dump/one-reader", nrs[0].Pos(), len(nrs) == 1, fmt.Sprintf("exactly one buffered reader over the source connection (found %d): the bytes after the RDB sit in that reader's buffer and are the start of the command phase", len(nrs)))
-	if master == nil || rdv == nil || size == nil || flow.Assignments(info, dump.Decl.Body, rdv) != 1 {
-		c.Undecidedf("R2.reader", "dump/reader-var", nrs[0].Pos(), "connection, size or reader not bound to single-assignment variables")
-		return
-	}
-	c.Check("R2.reader", "dump/reader-over-conn", nrs[0].Pos(), flow.IsObj(info, master)(nrs[0].Args[0]), "the reader wraps the connection returned by sendCmd, i.e. it is created only after the '$n' header was consumed byte by byte")
-	c.Check("R2.reader", "dump/copy-reader", df[0].Pos(), flow.IsObj(info, rdv)(df[0].Args[0]), "the RDB is dumped through that reader")
-	c.Check("R3.bounded", "dump/size-passed", df[0].Pos(), flow.IsObj(info, size)(df[0].Args[2]), "the size announced by the source bounds the dump")
-	nret := 0
-	core.Inspect(dump.Decl.Body, func(m ast.Node) bool {
-		if ret, ok := m.(*ast.ReturnStmt); ok && len(ret.Results) == 3 {
-			nret++
-			c.Check("R2.reader", "dump/returns-reader", ret.Pos(), flow.IsObj(info, rdv)(ret.Results[0]), "the command phase continues on the same reader: a fresh reader would miss the bytes buffered behind the RDB")
-		}
-		return true
-	})
-	if nret == 0 {
-		c.Undecidedf("R2.reader", "dump/returns-reader", dump.Decl.Pos(), "no 3-result return in dump")
-	}
-	// the copy loop lives in a goroutine literal of dumpRDBFile
-	_, rparam := param(rdbFile, 0)
-	wid, _ := param(rdbFile, 1)
-	var lit *ast.FuncLit
-	for _, fl := range core.FuncLits(rdbFile.Decl.Body) {
-		if len(callsTo(info, fl, ioc.Obj, false)) > 0 {
-			lit = fl
-		}
-	}
-	if lit == nil {
-		c.Undecidedf("R3.bounded", "dumpRDBFile/copy", rdbFile.Decl.Pos(), "cannot find the goroutine that calls Iocopy")
-		return
-	}
-	r.boundedCaller("dumpRDBFile", rdbFile, lit, ioc, rparam)
-	g := cfgq.OfLit(c.Program, info, lit)
-	call := callsTo(info, lit, ioc.Obj, false)[0]
-	if !pat.Same(info, call.Args[1], wid) {
-		c.Undecidedf("R3.bounded", "dumpRDBFile/flush", call.Pos(), "the copy does not write to the writer parameter")
-		return
-	}
-	cp, _ := g.Find(call)
-	isFlush := flow.CallOn(g, func(fc *ast.CallExpr) bool {
-		return core.CalleeFunc(info, fc) == flush.Obj && pat.Same(info, fc.Args[0], wid) || pat.Expr("_w.Flush()").Match(info, fc, pat.Binds{"_w": wid}) != nil
-	})
-	w := g.Path(cfgq.Query{From: cp, After: true, Avoid: isFlush, TargetExit: cfgq.NormalExit})
-	c.Check("R3.bounded", "dumpRDBFile/flush", call.Pos(), w == nil, "every copied chunk is flushed before the goroutine ends: otherwise the tail of the RDB stays in the buffered writer and the dump file is shorter than the n announced bytes", w...)
-}
-
-func (r *rs) syncEntry() {
-	c := r.c
-	fn, rdb, cmd := c.Func(pkgS, "DbSyncer", "Sync"), c.Func(pkgS, "DbSyncer", "syncRDBFile"), c.Func(pkgS, "DbSyncer", "syncCommand")
-	if fn == nil || rdb == nil || cmd == nil {
-		return
-	}
-	info := fn.Pkg.TypesInfo
-	a, b := callsTo(info, fn.Decl.Body, rdb.Obj, false), callsTo(info, fn.Decl.Body, cmd.Obj, false)
-	var nrs []*ast.CallExpr
-	if len(a) == 1 {
-		nrs = readersLike(info, fn.Decl.Body, newReaders(info, fn.Decl.Body, true), flow.Obj(info, a[0].Args[0]))
-	}
-	if len(nrs) == 0 || len(a) != 1 || len(b) != 1 {
-		c.Undecidedf("R2.reader", "Sync/shape", fn.Decl.Pos(), "expected a buffered reader, one syncRDBFile and one syncCommand call")
-		return
-	}
-	rdv := assignedVar(info, fn.Decl.Body, nrs[0], 0)
-	c.Check("R2.reader", "Sync/one-reader", nrs[0].Pos(), len(nrs) == 1, fmt.Sprintf("exactly one buffered reader over the pipe (found %d)", len(nrs)))
-	if rdv == nil || flow.Assignments(info, fn.Decl.Body, rdv) != 1 {
-		c.Undecidedf("R2.reader", "Sync/reader-var", nrs[0].Pos(), "the reader is not a single-assignment variable")
-		return
-	}
-	c.Check("R2.reader", "Sync/rdb-and-commands-share-reader", b[0].Pos(), flow.IsObj(info, rdv)(a[0].Args[0]) && flow.IsObj(info, rdv)(b[0].Args[0]),
-		"the RDB loader and the command parser must read through the same buffered reader: the loader's reader has usually buffered the first commands, which a second reader never sees")
-}
-
-// rawConn: the raw connection leaves sendCmd/sendSyncCmd only once a non-zero size arrived.
-func (r *rs) rawConn(pkgPath, recv, name string) {
-	c := r.c
-	fn, osc := c.Func(pkgPath, recv, name), c.Func(pkgU, "", "OpenSyncConn")
-	if fn == nil || osc == nil {
-		return
-	}
-	info := fn.Pkg.TypesInfo
-	g := cfgq.Of(c.Program, fn)
-	calls := callsTo(info, fn.Decl.Body, osc.Obj, false)
-	if len(calls) != 1 {
-		c.Undecidedf("R2.reader", name+"/raw-conn", fn.Decl.Pos(), "expected one OpenSyncConn call")
-		return
-	}
-	conn, wait := assignedVar(info, fn.Decl.Body, calls[0], 0), assignedVar(info, fn.Decl.Body, calls[0], 1)
-	k := 0
-	for _, p := range g.Points(func(m ast.Node) bool { ret, ok := m.(*ast.ReturnStmt); return ok && len(ret.Results) == 2 }) {
-		ret := p.Node().(*ast.ReturnStmt)
-		so := flow.Obj(info, ret.Results[1])
-		if conn == nil || wait == nil || so == nil || !flow.IsObj(info, conn)(ret.Results[0]) {
-			c.Undecidedf("R2.reader", name+"/raw-conn", ret.Pos(), "return %s is not (connection, size variable)", c.Src(ret))
-			continue
-		}
-		k++
-		recvd := false
-		core.Inspect(fn.Decl.Body, func(m ast.Node) bool {
-			if as, ok := m.(*ast.AssignStmt); ok && len(as.Lhs) == 1 && len(as.Rhs) == 1 && flow.IsObj(info, so)(as.Lhs[0]) {
-				if u, ok := ast.Unparen(as.Rhs[0]).(*ast.UnaryExpr); ok && u.Op == token.ARROW && flow.IsObj(info, wait)(u.X) {
-					recvd = true
-				}
-			}
-			return true
-		})
-		ok, w := flow.OnlyVia(g, p, func(f cfgq.Fact) bool { return nonZero(info, f, flow.IsObj(info, so)) })
-		c.Check("R2.reader", name+"/raw-conn", ret.Pos(), ok && recvd,
-			"the raw connection may be handed on only after a non-zero size was received from the header goroutine: before that the goroutine is still reading the same socket byte by byte, and a second reader would split the header/RDB bytes between the two", w...)
-	}
-	if k == 0 {
-		c.Undecidedf("R2.reader", name+"/raw-conn", fn.Decl.Pos(), "no (connection, size) return found")
-	}
-}
-
-// replyUsed: every caller of SendPSyncContinue must look at the wait channel
-// it returns, because a non-nil channel means that an RDB precedes the commands.
-func (r *rs) replyUsed() {
-	c := r.c
-	spc := c.Func(pkgU, "", "SendPSyncContinue")
-	if spc == nil {
-		return
-	}
-	n := 0
-	for _, pp := range []string{pkgS, pkgR, pkgU} {
-		pk := c.Pkg(pp)
-		info := pk.TypesInfo
-		for _, f := range pk.Syntax {
-			for _, d := range f.Decls {
-				fd, ok := d.(*ast.FuncDecl)
-				if !ok || fd.Body == nil {
-					continue
-				}
-				for _, call := range callsTo(info, fd.Body, spc.Obj, true) {
-					n++
-					wait := assignedVar(info, fd.Body, call, 2)
-					used := false
-					if wait != nil {
-						core.InspectAll(fd.Body, func(m ast.Node) bool {
-							if id, ok := m.(*ast.Ident); ok && info.Uses[id] == wait {
-								used = true
-							}
-							return true
-						})
-					}
-					c.Check("R5.use", fd.Name.Name+"/wait-result-used", call.Pos(), used,
-						"the wait channel returned by SendPSyncContinue is discarded: when the source answers this PSYNC with +FULLRESYNC, the header goroutine started on the reader and the stream copy that follows read the same reader concurrently, so '$n', the RDB bytes and the commands are split between them and the command parser is fed RDB bytes (the announced run id/offset are ignored as well)")
-				}
-			}
-		}
-	}
-	if n < 2 {
-		c.Undecidedf("instances", "R5.use", token.NoPos, "only %d callers of SendPSyncContinue found, 2 confirmed by hand", n)
-	}
 }
